@@ -175,7 +175,7 @@ class Report:
         have = {o.id for o in self.obls}
         if not self.obls:
             self.error("zero obligations generated")
-        if ledger is not None and self.tier == "quick":
+        if ledger is not None and self.tier == "quick" and not getattr(self, "partial", False):
             missing = [i for i in ledger.get("discharged", []) + ledger.get("bounded", [])
                        if i not in have]
             if missing:
